@@ -767,7 +767,7 @@ static void _fff_onesample_gmfx_EM(double* m, double* v,
     v1 = fff_vector_ssd(x, &m1, 0)/(long double)x->size;
 
   else {
-    m1 = 0.0;
+    m1 = *m; /* constrained fit: the mean is pinned at the value passed by the caller (the baseline) */
     v1 = fff_vector_ssd(x, &m1, 1)/(long double)x->size;
   }
 
@@ -792,18 +792,22 @@ static void _fff_onesample_gmfx_EM(double* m, double* v,
       mi_ap *= aux;
       vi_ap = aux * (*bufvar) * v0;
 
-      /* Update */
-      if ( ! constraint )
+      /* Update (constrained fit: second moment about the fixed mean m0 == m1) */
+      if ( ! constraint ) {
 	m1 += mi_ap;
-      v1 += vi_ap + FFF_SQR(mi_ap);
+	v1 += vi_ap + FFF_SQR(mi_ap);
+      }
+      else
+	v1 += vi_ap + FFF_SQR(mi_ap - m0);
 
     }
 
     /* Normalization */
-    if ( ! constraint )
-      m1 /= nn;
     v1 /= nn;
-    v1 -= FFF_SQR(m1);
+    if ( ! constraint ) {
+      m1 /= nn;
+      v1 -= FFF_SQR(m1);
+    }
 
     /* Iteration number */
     iter ++;
